@@ -34,6 +34,7 @@ class UnitResult:
         self.samples = []
         self.exits = {}         # outcome kind -> count ('return', 'raise X')
         self.queries = 0
+        self.used = set()
 
     def add(self, ob, ce=None):
         d = self.obls.setdefault(ob.name, dict(status='proved', checks=0, secs=0.0,
@@ -63,7 +64,7 @@ class UnitResult:
         return dict(name=self.name, kind=self.kind, paths=self.paths, covered=self.covered,
                     engine_error=self.engine_error, secs=round(self.secs, 3),
                     solver_secs=round(self.solver_secs, 3), src_sha=self.src_sha,
-                    exits=self.exits, queries=self.queries,
+                    exits=self.exits, queries=self.queries, used=sorted(self.used),
                     obls={k: dict(status=v['status'], checks=v['checks'], secs=round(v['secs'], 3),
                                   backends=sorted(v['backends']), ce=v['ce'], detail=v['detail'],
                                   smt2=v['smt2'], where=v['where'])
@@ -200,6 +201,7 @@ class Verifier:
                         ce = {'__error__': f'reification failed: {e}'}
                 res.add(ob, ce)
             res.solver_secs += ctx.solver_secs
+            res.used |= it.used
             stack.extend(ctx.alts)
             if res.engine_error:
                 break
